@@ -89,6 +89,7 @@ type CallSpec struct {
 	Timeout time.Duration       `json:"timeout,omitempty"`
 	AliasMD bool                `json:"alias_md,omitempty"` // the handler reuses one metadata object for all its SetHeader (and one for all its SetTrailer) calls, refilling it in between
 	BothWays bool               `json:"both_ways,omitempty"` // C11: abandoned with traffic pending in both directions
+	Stub    bool                `json:"stub,omitempty"` // server-streaming: the caller behaves like the generated code - if the request's SendMsg or the CloseSend fails it gets (nil, err) and never sees the stream
 	BadReply int                `json:"bad_reply,omitempty"` // unary: 1 the handler returns a message the codec refuses (invalid UTF-8 in a string field), 2 a nil reply with a nil error
 	PreDone int                 `json:"predone,omitempty"` // the caller's context is already finished when the call starts: 1 cancelled, 2 deadline passed
 	Req     []byte              `json:"-"`
@@ -120,6 +121,7 @@ type CallRec struct {
 	NewStreamErr error
 	CSent       int
 	CSendErr    []error
+	CStubDropped bool // Spec.Stub: the generated code would have returned (nil, err)
 	CGot        [][]byte
 	CFinal      error
 	CFinalSet   bool
@@ -741,6 +743,14 @@ func (s *Sim) cprog(r *CallRec, st grpc.ClientStream, prog []Op, suffix string) 
 				}
 				histMu.Unlock()
 				e.Log("c.send", "", id, errStr(err))
+				if err != nil && r.Spec.Stub {
+					// what the generated code for a server-streaming method does: it hands
+					// the caller (nil, err) and the stream object is gone
+					histMu.Lock()
+					r.CStubDropped = true
+					histMu.Unlock()
+					return
+				}
 				if err != nil {
 					break
 				}
@@ -782,8 +792,11 @@ func (s *Sim) cprog(r *CallRec, st grpc.ClientStream, prog []Op, suffix string) 
 			r.CloseErr = err
 			histMu.Unlock()
 			e.Log("c.close", "", id, errStr(err))
-			if op.N == 1 && err != nil {
+			if (op.N == 1 || r.Spec.Stub) && err != nil {
 				// what the generated stubs do: the call is given up, the stream dropped
+				histMu.Lock()
+				r.CStubDropped = true
+				histMu.Unlock()
 				return
 			}
 		case 'h':
